@@ -365,3 +365,298 @@ func ruleConfigSliceNotMutated(w *World, r *Run, rule string) {
 		r.Pass(rule, "module | the configured log list handed to a component is not modified", "", "")
 	}
 }
+
+// rulePooledBytesDontEscape: a buffer taken from a sync.Pool and put back by the same function (directly or by defer) must
+// not hand out a view of its contents: bytes.Buffer.Bytes() (or a sub-slice of a pooled []byte) that is returned or stored
+// aliases memory the next user of the pool overwrites — a checkpoint verified now reads differently a moment later.
+func rulePooledBytesDontEscape(w *World, r *Run, rule string) {
+	bad, nPools := 0, 0
+	for _, fn := range w.prodFns() {
+		pooled := map[ssa.Value]bool{}
+		var order []ssa.Instruction
+		for _, b := range fn.Blocks {
+			order = append(order, b.Instrs...)
+		}
+		putsBack := false
+		for pass := 0; pass < 3; pass++ {
+			for _, in := range order {
+				switch x := in.(type) {
+				case *ssa.Call:
+					switch ssaCallName(&x.Call) {
+					case "(*sync.Pool).Get":
+						pooled[x] = true
+					case "(*bytes.Buffer).Bytes", "(*bytes.Buffer).Next", "(*bytes.Buffer).AvailableBuffer":
+						if len(x.Call.Args) > 0 && pooled[x.Call.Args[0]] {
+							pooled[x] = true
+						}
+					}
+				case *ssa.TypeAssert:
+					if pooled[x.X] {
+						pooled[x] = true
+					}
+				case *ssa.Extract:
+					if pooled[x.Tuple] {
+						pooled[x] = true
+					}
+				case *ssa.Slice:
+					if pooled[x.X] {
+						pooled[x] = true
+					}
+				case *ssa.UnOp:
+					if pooled[x.X] {
+						pooled[x] = true // *(*[]byte) from a pool of slice pointers; a spilled local
+					}
+				case *ssa.Phi:
+					for _, e := range x.Edges {
+						if pooled[e] {
+							pooled[x] = true
+						}
+					}
+				case *ssa.Store:
+					if al, ok := x.Addr.(*ssa.Alloc); ok && pooled[x.Val] {
+						pooled[al] = true
+					}
+				}
+			}
+		}
+		if len(pooled) == 0 {
+			continue
+		}
+		nPools++
+		for _, in := range order {
+			var cc *ssa.CallCommon
+			switch x := in.(type) {
+			case *ssa.Call:
+				cc = &x.Call
+			case *ssa.Defer:
+				cc = &x.Call
+			}
+			if cc != nil && ssaCallName(cc) == "(*sync.Pool).Put" {
+				putsBack = true
+			}
+			// put back inside a deferred closure
+			if d, ok := in.(*ssa.Defer); ok {
+				if mc, ok := d.Call.Value.(*ssa.MakeClosure); ok {
+					for _, b := range mc.Fn.(*ssa.Function).Blocks {
+						for _, cin := range b.Instrs {
+							if c, ok := cin.(ssa.CallInstruction); ok && ssaCallName(c.Common()) == "(*sync.Pool).Put" {
+								putsBack = true
+							}
+						}
+					}
+				}
+			}
+		}
+		if !putsBack {
+			continue
+		}
+		for _, in := range order {
+			key := funcNameOrSSA(outermost(fn)) + " | no view of a pooled buffer outlives its return to the pool"
+			switch x := in.(type) {
+			case *ssa.Return:
+				for _, res := range x.Results {
+					if pooled[res] && isByteSlice(res.Type()) {
+						bad++
+						r.Fail(rule, key, w.pos(x.Pos()), "the function returns a []byte view of a buffer it puts back into a sync.Pool: the next user of the pool overwrites the bytes the caller is still holding (a checkpoint that verified is no longer the one submitted or stored)")
+					}
+				}
+			case *ssa.Store:
+				if pooled[x.Val] && isByteSlice(x.Val.Type()) {
+					if _, local := x.Addr.(*ssa.Alloc); !local {
+						bad++
+						r.Fail(rule, key, w.pos(x.Pos()), "a []byte view of a pooled buffer is stored where it outlives the buffer's return to the pool")
+					}
+				}
+			}
+		}
+	}
+	if bad == 0 {
+		r.Pass(rule, "module | no view of a pooled buffer outlives its return to the pool", "", "")
+	}
+	_ = nPools
+}
+
+// ruleNoUnboundedClient: library code (everything the omniwitness assembles: internal/…, omniwitness/) performs its HTTP
+// requests with the client it is handed — the operator's, which carries the configured time-out. A client it builds
+// itself must take over a time-out (a Timeout field assigned, or a whole-value copy of the client it was handed);
+// otherwise a peer that accepts the request and then stalls holds the cycle for ever.
+func ruleNoUnboundedClient(w *World, r *Run, rule string) {
+	bad := 0
+	for _, fn := range w.prodFns() {
+		pp := pkgPathOf(fn)
+		if !(strings.HasPrefix(pp, modPath+"/internal/") || pp == pOmni) {
+			continue
+		}
+		for _, b := range fn.Blocks {
+			for _, in := range b.Instrs {
+				al, ok := in.(*ssa.Alloc)
+				if !ok {
+					continue
+				}
+				pt, ok := al.Type().Underlying().(*types.Pointer)
+				if !ok || typeStr(pt.Elem()) != "http.Client" {
+					continue
+				}
+				bounded := false
+				for _, ref := range *al.Referrers() {
+					switch x := ref.(type) {
+					case *ssa.FieldAddr:
+						if fieldOfAddr(x) != nil && fieldOfAddr(x).Name() == "Timeout" {
+							for _, fr := range *x.Referrers() {
+								if st, ok := fr.(*ssa.Store); ok && st.Addr == x {
+									if c, isC := st.Val.(*ssa.Const); !isC || (c.Value != nil && c.Int64() != 0) {
+										bounded = true
+									}
+								}
+							}
+						}
+					case *ssa.Store:
+						if x.Addr == al {
+							if _, isLoad := x.Val.(*ssa.UnOp); isLoad {
+								bounded = true // cc := *c: a copy of a client it was given, time-out included
+							}
+						}
+					}
+				}
+				if !bounded {
+					bad++
+					r.Fail(rule, funcNameOrSSA(outermost(fn))+" | an HTTP client built here carries a time-out", w.pos(al.Pos()), "an http.Client is built without a Timeout (and not as a copy of the client handed in): requests made with it are bounded by nothing when they run under a context without deadline, so a peer that stalls after accepting the request hangs the cycle")
+				}
+			}
+		}
+	}
+	if bad == 0 {
+		r.Pass(rule, "internal/…, omniwitness | no HTTP client without a time-out is built", "", "")
+	}
+}
+
+// ruleCounterStateLocked: a type that implements monitoring.Counter and keeps state that its methods write (a value map,
+// a cached child) touches that state — reads included — only inside a critical section on a mutex of the same value: after a
+// Lock that dominates the access, and, when the unlock is explicit rather than deferred, before it. An increment that
+// reads a field outside the section can land on whatever another goroutine's increment left there (another log's series).
+func ruleCounterStateLocked(w *World, r *Run, rule string) {
+	m := ifaceMethod(w, pMon, "Counter", "Inc")
+	if m == nil {
+		r.Undecided(rule, pMon+".Counter.Inc", "", "interface method not found")
+		return
+	}
+	recvTypes := map[string]bool{}
+	for _, f := range w.implementations(m) {
+		if w.isProd(f) && f.Signature.Recv() != nil {
+			recvTypes[typeStr(f.Signature.Recv().Type())] = true
+		}
+	}
+	if len(recvTypes) < 2 {
+		r.Undecided(rule, "implementations of monitoring.Counter", "", "fewer than two found")
+		return
+	}
+	// methods of those types
+	var methods []*ssa.Function
+	for _, fn := range w.prodFns() {
+		if fn.Signature.Recv() != nil && recvTypes[typeStr(fn.Signature.Recv().Type())] && len(fn.Params) > 0 {
+			methods = append(methods, fn)
+		}
+	}
+	recvField := func(fn *ssa.Function, v ssa.Value) *types.Var {
+		fa, ok := v.(*ssa.FieldAddr)
+		if !ok || fa.X != ssa.Value(fn.Params[0]) {
+			return nil
+		}
+		return fieldOfAddr(fa)
+	}
+	// fields written by any method
+	written := map[*types.Var]bool{}
+	for _, fn := range methods {
+		for _, b := range fn.Blocks {
+			for _, in := range b.Instrs {
+				switch x := in.(type) {
+				case *ssa.Store:
+					if f := recvField(fn, x.Addr); f != nil {
+						written[f] = true
+					}
+				case *ssa.MapUpdate:
+					if u, ok := x.Map.(*ssa.UnOp); ok {
+						if f := recvField(fn, u.X); f != nil {
+							written[f] = true
+						}
+					}
+				}
+			}
+		}
+	}
+	isMutexOp := func(fn *ssa.Function, in ssa.Instruction, names ...string) bool {
+		c, ok := in.(ssa.CallInstruction)
+		if !ok {
+			return false
+		}
+		n := ssaCallName(c.Common())
+		for _, want := range names {
+			if n == want && len(c.Common().Args) > 0 && recvField(fn, c.Common().Args[0]) != nil {
+				return true
+			}
+		}
+		return false
+	}
+	pos := func(b *ssa.BasicBlock, in ssa.Instruction) int {
+		for i, x := range b.Instrs {
+			if x == in {
+				return i
+			}
+		}
+		return -1
+	}
+	before := func(a, b ssa.Instruction) bool { // a strictly dominates b
+		if a.Block() == b.Block() {
+			return pos(a.Block(), a) < pos(b.Block(), b)
+		}
+		return a.Block().Dominates(b.Block())
+	}
+	n := 0
+	for _, fn := range methods {
+		var locks, unlocks []ssa.Instruction
+		for _, b := range fn.Blocks {
+			for _, in := range b.Instrs {
+				if _, isDefer := in.(*ssa.Defer); !isDefer && isMutexOp(fn, in, "(*sync.Mutex).Lock", "(*sync.RWMutex).Lock", "(*sync.RWMutex).RLock") {
+					locks = append(locks, in)
+				}
+				if _, isDefer := in.(*ssa.Defer); !isDefer && isMutexOp(fn, in, "(*sync.Mutex).Unlock", "(*sync.RWMutex).Unlock", "(*sync.RWMutex).RUnlock") {
+					unlocks = append(unlocks, in)
+				}
+			}
+		}
+		for _, b := range fn.Blocks {
+			for _, in := range b.Instrs {
+				var f *types.Var
+				switch x := in.(type) {
+				case *ssa.Store:
+					f = recvField(fn, x.Addr)
+				case *ssa.UnOp:
+					f = recvField(fn, x.X)
+				}
+				if f == nil || !written[f] {
+					continue
+				}
+				n++
+				held := false
+				for _, l := range locks {
+					if !before(l, in) {
+						continue
+					}
+					released := false
+					for _, u := range unlocks {
+						if before(l, u) && before(u, in) {
+							released = true
+						}
+					}
+					if !released {
+						held = true
+					}
+				}
+				r.Check(held, rule, funcName(fn)+" | field "+f.Name()+" (written by the counter's methods) is touched only under the counter's lock", w.pos(in.Pos()), "field "+f.Name()+" is read or written in "+short(fn.String())+" outside a critical section, while other methods of the counter write it: two goroutines incrementing for different logs can move each other's series")
+			}
+		}
+	}
+	if n == 0 {
+		r.Undecided(rule, "counter implementations", "", "no access to mutable counter state found (the inert counter's value map was expected)")
+	}
+}
